@@ -602,3 +602,130 @@ Check C06_default_view_is_cent_text : forall (A : arith) cur ds g tb,
   Forall (Forall (fun c => forallb is_text (cell_amounts c) = true)) (tb_rows tb) /\
   Forall (fun p => is_text (pm_amt p) = true) (tb_values tb).
 Print Assumptions C06_default_view_is_cent_text.
+
+(* ==== The output layer: the writers copy the render model ====================
+   (Model/Output.v, Proofs/OutputProps.v; hypotheses about File::create and the
+   csv crate: design.d/C04-output.md) *)
+From ACB Require Import Model.Output Proofs.OutputProps.
+Local Open Scope N_scope.
+
+(* The records the csv writer is handed for a table are accepted exactly when
+   the table is rectangular (rows and non-empty footer as long as the header;
+   a table without columns has no notes or errors), and then they are
+   table_records t = header :: rows ++ [footer if non-empty] ++ one record per
+   note ++ one record per error ("[!] " ++ e), nothing else *)
+Theorem C06_csv_records_iff_rectangular : forall t,
+  (rectangular t -> csv_table_records t = Ok (table_records t)) /\
+  (forall recs, csv_table_records t = Ok recs -> rectangular t /\ recs = table_records t).
+Proof. intros t. split; [exact (OutputProps.csv_table_records_rect t)|]. intros recs H. split; [exact (OutputProps.csv_table_records_rect_inv t recs H) | exact (OutputProps.csv_table_records_ok t recs H)]. Qed.
+Check C06_csv_records_iff_rectangular : forall t,
+  (rectangular t -> csv_table_records t = Ok (table_records t)) /\
+  (forall recs, csv_table_records t = Ok recs -> rectangular t /\ recs = table_records t).
+Print Assumptions C06_csv_records_iff_rectangular.
+
+(* --csv-output-dir, started on any directory d0, after a successful run: the
+   file of every security (whose name is not that of a report file) holds
+   exactly table_records of ITS table - every cell of the render model,
+   verbatim, in order, and nothing else; so do aggregate-gains.csv and the
+   costs files for theirs; every file the run writes holds table_records of
+   one of the run's tables; every other name is as it was in d0 *)
+Theorem C06_csv_dir_is_render_model : forall d0 r,
+  NoDup (map fst (ar_secs r)) -> ro_fail (csv_dir_output d0 r) = None ->
+  let d := ro_state (csv_dir_output d0 r) in
+  (forall s t, In (s, t) (ar_secs r) -> ~ In (file_name OTransactions s) (tail_files r) ->
+     blookup (file_name OTransactions s) d = Some (EFile (table_records t))) /\
+  (forall c, In c (tail_calls r) -> NoDup (tail_files r) ->
+     blookup (call_file c) d = Some (EFile (table_records (call_table c)))) /\
+  (forall fn, ~ In fn (write_log r) -> blookup fn d = blookup fn d0) /\
+  (forall fn, In fn (write_log r) -> exists c, In c (calls r) /\ call_file c = fn /\
+     blookup fn d = Some (EFile (table_records (call_table c)))).
+Proof. exact OutputProps.csv_dir_is_render_model. Qed.
+Check C06_csv_dir_is_render_model : forall d0 r,
+  NoDup (map fst (ar_secs r)) -> ro_fail (csv_dir_output d0 r) = None ->
+  let d := ro_state (csv_dir_output d0 r) in
+  (forall s t, In (s, t) (ar_secs r) -> ~ In (file_name OTransactions s) (tail_files r) ->
+     blookup (file_name OTransactions s) d = Some (EFile (table_records t))) /\
+  (forall c, In c (tail_calls r) -> NoDup (tail_files r) ->
+     blookup (call_file c) d = Some (EFile (table_records (call_table c)))) /\
+  (forall fn, ~ In fn (write_log r) -> blookup fn d = blookup fn d0) /\
+  (forall fn, In fn (write_log r) -> exists c, In c (calls r) /\ call_file c = fn /\
+     blookup fn d = Some (EFile (table_records (call_table c)))).
+Print Assumptions C06_csv_dir_is_render_model.
+
+(* Text mode: the sections are those of the tables in the order of the prints
+   (calls r: securities sorted by name, aggregate, costs), each with the title
+   of its table, the table's errors, its cells as the block handed to `tabled`
+   (upper-cased header, rows, blank record and footer) and its notes; standard
+   output is their lines followed by the closing list *)
+Theorem C06_text_sections_are_render_model : forall r,
+  ro_fail (text_output r) = None ->
+  ro_state (text_output r) = map section_of (calls r) /\
+  ro_errsecs (text_output r) = errsecs_of r /\
+  text_stdout r = flat_map section_items (map section_of (calls r)) ++ closing_items (errsecs_of r).
+Proof. exact OutputProps.text_sections_are_render_model. Qed.
+Check C06_text_sections_are_render_model : forall r,
+  ro_fail (text_output r) = None ->
+  ro_state (text_output r) = map section_of (calls r) /\
+  ro_errsecs (text_output r) = errsecs_of r /\
+  text_stdout r = flat_map section_items (map section_of (calls r)) ++ closing_items (errsecs_of r).
+Print Assumptions C06_text_sections_are_render_model.
+
+(* The files written are a function of the input alone.  Writing result r into
+   a directory dA that already holds files (of an earlier, larger run) leaves,
+   under every file name r writes, exactly what r writes into an empty
+   directory - no record of the earlier content survives - and leaves every
+   other file as it was *)
+Theorem C06_output_function_of_input : forall dA r,
+  ro_fail (csv_dir_output dA r) = None ->
+  ro_fail (csv_dir_output [] r) = None /\
+  (forall fn, In fn (write_log r) ->
+     blookup fn (ro_state (csv_dir_output dA r)) = blookup fn (ro_state (csv_dir_output [] r))) /\
+  (forall fn, ~ In fn (write_log r) ->
+     blookup fn (ro_state (csv_dir_output dA r)) = blookup fn dA /\
+     blookup fn (ro_state (csv_dir_output [] r)) = None).
+Proof. exact OutputProps.csv_dir_overwrite. Qed.
+Check C06_output_function_of_input : forall dA r,
+  ro_fail (csv_dir_output dA r) = None ->
+  ro_fail (csv_dir_output [] r) = None /\
+  (forall fn, In fn (write_log r) ->
+     blookup fn (ro_state (csv_dir_output dA r)) = blookup fn (ro_state (csv_dir_output [] r))) /\
+  (forall fn, ~ In fn (write_log r) ->
+     blookup fn (ro_state (csv_dir_output dA r)) = blookup fn dA /\
+     blookup fn (ro_state (csv_dir_output [] r)) = None).
+Print Assumptions C06_output_function_of_input.
+
+(* ---- non-vacuity: a run of three tables, then a run of one of them with
+   fewer rows into the same directory ---- *)
+Definition o_tab (rows : list record) (footer notes errs : list text) : rtable :=
+  {| rt_header := [lit [72]; lit [73]]; rt_rows := rows; rt_footer := footer; rt_notes := notes; rt_errors := errs |}.
+Definition o_aa : bytes := [65; 65].
+Definition o_bb : bytes := [66; 66].
+Definition o_big : app_result :=
+  {| ar_secs := [(o_bb, o_tab [[lit [49]; lit [50]]; [lit [51]; lit [52]]] [[]; lit [36; 57]] [] []);
+                 (o_aa, o_tab [[lit [53]; lit [54]]; [lit [55]; lit [56]]; [lit [57]; lit [48]]] [] [lit [110]] [])];
+     ar_agg := o_tab [[lit [51]; lit [52]]; [lit [53]; lit [54]]] [] [] []; ar_costs := None |}.
+Definition o_small : app_result :=
+  {| ar_secs := [(o_aa, o_tab [[lit [53]; lit [54]]] [] [] [])];
+     ar_agg := o_tab [[lit [51]; lit [52]]] [] [] []; ar_costs := None |}.
+Example C06_output_nonvacuous :
+  let dA := ro_state (csv_dir_output [] o_big) in
+  ro_fail (csv_dir_output [] o_big) = None /\ ro_fail (csv_dir_output dA o_small) = None /\
+  map fst dA = [o_aa ++ s_dot_csv; o_bb ++ s_dot_csv; s_aggregate_gains_csv] /\
+  blookup (o_aa ++ s_dot_csv) dA
+    = Some (EFile [[lit [72]; lit [73]]; [lit [53]; lit [54]]; [lit [55]; lit [56]]; [lit [57]; lit [48]]; [lit [110]; []]]) /\
+  blookup (o_aa ++ s_dot_csv) (ro_state (csv_dir_output dA o_small))
+    = Some (EFile [[lit [72]; lit [73]]; [lit [53]; lit [54]]]) /\
+  blookup (o_bb ++ s_dot_csv) (ro_state (csv_dir_output dA o_small)) = blookup (o_bb ++ s_dot_csv) dA /\
+  blookup s_aggregate_gains_csv (ro_state (csv_dir_output dA o_small))
+    = Some (EFile [[lit [72]; lit [73]]; [lit [51]; lit [52]]]) /\
+  rectangular (o_tab [[lit [49]; lit [50]]] [[]; lit [36; 57]] [] []) /\
+  csv_table_records (o_tab [[lit [49]]] [] [] []) = Rej (RejOther site_csv_unequal) /\
+  map sc_title (ro_state (text_output o_big))
+    = [[PLit s_transactions_for; PLit o_aa]; [PLit s_transactions_for; PLit o_bb]; lit s_aggregate_gains] /\
+  ro_fail (text_output o_big) = None.
+Proof.
+  cbv zeta. repeat split; try (vm_compute; reflexivity).
+  - repeat constructor.
+  - right. reflexivity.
+  - left. discriminate.
+Qed.
